@@ -1,6 +1,7 @@
 package main
 
 import (
+	"os"
 	"bytes"
 	"fmt"
 	"strings"
@@ -341,6 +342,22 @@ func runC08(c *runCfg) error {
 			}
 		}
 	}
+	// every Bind message: also those naming statements and portals by long names that agree in their first 63, 64,
+	// 127 or 255 bytes — each portal keeps ITS statement, parameters and formats
+	for _, pre := range []int{62, 63, 64, 127, 255} {
+		one := stmtT{id: 21, cols: textCols(1), poids: []int{23}, prog: []opT{{kind: "row", vals: []valT{tv("one")}}, {kind: "complete", tag: []byte("SELECT 1")}}, ret: "nil"}
+		two := stmtT{id: 22, cols: textCols(2), poids: []int{25, 16}, prog: []opT{{kind: "row", vals: []valT{tv("two"), tv("2")}}, {kind: "complete", tag: []byte("SELECT 2")}}, ret: "nil"}
+		cfg := cfgT{limit: 1 << 20, auth: "none", term: "none", parse: []parseEntry{{query: []byte("select one"), stmts: []stmtT{one}}, {query: []byte("select two"), stmts: []stmtT{two}}}}
+		stem := bytes.Repeat([]byte("n"), pre)
+		sA, sB := append(append([]byte{}, stem...), 'A'), append(append([]byte{}, stem...), 'B')
+		pA, pB := append(append([]byte{}, stem...), "_pa"...), append(append([]byte{}, stem...), "_pb"...)
+		msgs := [][]byte{mParse(sA, []byte("select one"), 0), mParse(sB, []byte("select two"), 0), mDescribe('S', sA), mDescribe('S', sB),
+			mBind(pA, sA, []int{0}, []bindP{{v: []byte("1")}}, nil), mBind(pB, sB, []int{0, 1}, []bindP{{v: []byte("text")}, {v: []byte{1}}}, []int{1}),
+			mDescribe('P', pA), mExecute(pA, 0), mDescribe('P', pB), mExecute(pB, 0), mSync(),
+			mClose('P', pB), mExecute(pA, 0), mClose('S', sB), mDescribe('S', sA), mSync()}
+		emitSession(c, lockCase(id, "long_prefix_names", cfg, stdStartup, msgs))
+		id++
+	}
 	// statements declaring many parameter types (the 16-bit count of ParameterDescription)
 	for _, n := range []int{255, 256, 32767, 32768, 40000, 65535} {
 		poids := make([]int, n)
@@ -450,8 +467,12 @@ func init() { runners["C13"] = runC13 }
 
 func runC13(c *runCfg) error {
 	if c.replay != "" {
+		if b, err := os.ReadFile(c.replay); err == nil && bytes.Contains(b, []byte("(c14 ")) {
+			return replayC14(c)
+		}
 		return replaySessions(c)
 	}
+	runC13binary(c)
 	g := &gen{rng: c.rng}
 	id := 0
 	limit := 48
@@ -599,6 +620,19 @@ func runC13(c *runCfg) error {
 			cfg := mkCfg(ncols, f, 2, "last", true, complete)
 			emitSession(c, lockCase(id, "wide_copy", cfg, stdStartup, [][]byte{mQuery([]byte("copy")), mCopyData([]byte("x")), mCopyDone(), mSync(),
 				mParse(nil, []byte("copy"), 0), mBind(nil, nil, nil, nil, []int{1 - f}), mExecute(nil, 0), mCopyFail([]byte("no")), mSync()}))
+			id++
+		}
+	}
+	// "the requested format for each declared column": whatever the declared types — built-in ones, types the
+	// connection's type map does not know (user-defined types, enums), zero
+	for _, oids := range [][]int{{23, 99999, 25}, {99999}, {0, 23}, {16, 600000, 700000, 25}, {2950, 3802, 16384}} {
+		for _, f := range []int{0, 1} {
+			cfg := mkCfg(len(oids), f, 2, "last", true, complete)
+			for i, o := range oids {
+				cfg.parse[0].stmts[0].cols[i].oid = o
+			}
+			emitSession(c, lockCase(id, "copy_unknown_types", cfg, stdStartup, [][]byte{mQuery([]byte("copy")), mCopyData([]byte("x")), mCopyDone(), mSync(),
+				mParse(nil, []byte("copy"), 0), mBind(nil, nil, nil, nil, nil), mExecute(nil, 0), mCopyFail([]byte("no")), mSync()}))
 			id++
 		}
 	}
